@@ -37,8 +37,9 @@ pub struct SimCtx {
     pub sim: Simulator,
     pub kb: Option<BufferedKeyboard>,
     pub ds: Option<BufferedDisplay>,
-    pub kb_locked: bool,
-    pub ds_locked: bool,
+    /// 0 = free, 1 = exclusive (write) guard held by the harness, 2 = shared (read) guard held
+    pub kb_locked: u8,
+    pub ds_locked: u8,
     pub timers: BTreeMap<u16, Arc<Mutex<TimerDevice>>>,
     pub recorders: BTreeMap<u16, Arc<Mutex<Vec<String>>>>,
     pub ssp_addr: Option<u16>,
@@ -104,7 +105,7 @@ impl SimCtx {
         let flags = SimFlags { strict, use_real_traps: real, machine_init: MachineInitStrategy::Known { value: fill }, debug_frames: dbg, ignore_privilege: ign };
         let sim = Simulator::new(flags);
         let shadow = (0..=u16::MAX).map(|a| sim.mem[a]).collect();
-        SimCtx { sim, shadow, kb: None, ds: None, kb_locked: false, ds_locked: false, timers: BTreeMap::new(),
+        SimCtx { sim, shadow, kb: None, ds: None, kb_locked: 0, ds_locked: 0, timers: BTreeMap::new(),
                  recorders: BTreeMap::new(), ssp_addr: None, iregs: BTreeMap::from([(0xFFFC, "psr"), (0xFFFE, "mcr")]), fill, timed_out: false }
     }
 
@@ -128,8 +129,10 @@ impl SimCtx {
     fn with_locks<T>(&mut self, f: impl FnOnce(&mut Simulator) -> T) -> T {
         let kbuf = self.kb.as_ref().map(|k| k.get_buffer().clone());
         let dbuf = self.ds.as_ref().map(|d| d.get_buffer().clone());
-        let _g1 = if self.kb_locked { kbuf.as_ref().map(|k| k.write().unwrap()) } else { None };
-        let _g2 = if self.ds_locked { dbuf.as_ref().map(|d| d.write().unwrap()) } else { None };
+        let _g1 = if self.kb_locked == 1 { kbuf.as_ref().map(|k| k.write().unwrap()) } else { None };
+        let _g2 = if self.ds_locked == 1 { dbuf.as_ref().map(|d| d.write().unwrap()) } else { None };
+        let _g3 = if self.kb_locked == 2 { kbuf.as_ref().map(|k| k.read().unwrap()) } else { None };
+        let _g4 = if self.ds_locked == 2 { dbuf.as_ref().map(|d| d.read().unwrap()) } else { None };
         f(&mut self.sim)
     }
 
@@ -269,8 +272,8 @@ impl SimCtx {
                 self.sim.flags.strict = s; self.sim.flags.use_real_traps = r; self.sim.flags.ignore_privilege = i; "ok".into()
             }
             ["dbgframes", d] => { let Some(d) = b(d) else { return "bad-op".into() }; self.sim.flags.debug_frames = d; "ok".into() }
-            ["kbset"] => { let k = BufferedKeyboard::default(); self.sim.device_handler.set_keyboard(k.clone()); self.kb = Some(k); self.kb_locked = false; "ok".into() }
-            ["dsset"] => { let d = BufferedDisplay::default(); self.sim.device_handler.set_display(d.clone()); self.ds = Some(d); self.ds_locked = false; "ok".into() }
+            ["kbset"] => { let k = BufferedKeyboard::default(); self.sim.device_handler.set_keyboard(k.clone()); self.kb = Some(k); self.kb_locked = 0; "ok".into() }
+            ["dsset"] => { let d = BufferedDisplay::default(); self.sim.device_handler.set_display(d.clone()); self.ds = Some(d); self.ds_locked = 0; "ok".into() }
             ["kbpush", hx] => {
                 let Some(k) = &self.kb else { return "nokb".into() };
                 let mut g = k.get_buffer().write().unwrap();
@@ -279,7 +282,7 @@ impl SimCtx {
                 "ok".into()
             }
             ["lock", which, v] => {
-                let Some(v) = b(v) else { return "bad-op".into() };
+                let v: u8 = match *v { "0" => 0, "1" => 1, "2" => 2, _ => return "bad-op".into() };
                 match *which { "kb" => self.kb_locked = v, "ds" => self.ds_locked = v, _ => return "bad-op".into() }
                 "ok".into()
             }
